@@ -39,7 +39,8 @@ CHECKS = {
                   "time > 0 (induction over the claim vector, including swap_remove). Tied to the code by the executed correspondence; oracle: "
                   "history-based reference after every step. Node level: every peer-removal path drops the routes in the same step (RoutesProofs.v), and in EVERY "
                   "reachable node state every claim and every cached/learned address belongs to a current peer, so no lookup ever selects a non-peer "
-                  "(NextHopProofs.v: invariant RT /\\ PI preserved by every step of the node model, induction over arbitrary event sequences).",
+                  "(NextHopProofs.v: invariant RT /\\ PI preserved by every step of the node model, induction over arbitrary event sequences); processing "
+                  "a connected peer's node information (NODE_INFO message or handshake payload) makes its claims exactly the announced ones (ClaimsExactProofs.v).",
              technique="Coq proof (invariant of the set_claims loop by induction) + executed model/implementation correspondence", ref="5 (C12)"),
  "C17": dict(text="Theorems C17_* (Properties/C17.v), with SHA-512 modelled bit-exact in Gallina (no hash oracle): base-62 text round trip to the "
                   "leading-zero-stripped string (canonical numerals, uniqueness), masking involution for every length incl. counter wrap, "
